@@ -148,3 +148,19 @@ Proof.
   intros T a Ha. apply opt_all_spec in E.
   rewrite (cnt_patterns a pats rs Ha E), <- cnt_sort. apply (cnt_tiles a _ _ _ T).
 Qed.
+
+(* ------------------------------------------------------------------ expand() never raises on a validated network *)
+Lemma pat6_ok nl sc sub : exists p, pat6 nl sc sub = Ok p.
+Proof. unfold pat6. destruct (first_diff _ _ 0); eauto. Qed.
+Lemma oall_ok {A} (l : list (outcome A)) : (forall x, In x l -> exists a, x = Ok a) -> exists r, oall l = Ok r.
+Proof.
+  induction l as [|x l IH]; intros H; [exists []; reflexivity|].
+  destruct (H x (or_introl eq_refl)) as [a ->].
+  destruct IH as [r Hr]; [intros y Hy; apply H; right; exact Hy|].
+  exists (a :: r). cbn [oall obind]. rewrite Hr. reflexivity.
+Qed.
+Lemma expand_total n : exists pats, expand n = Ok pats.
+Proof.
+  destruct n as [a len | a len sc]; cbn [expand]; [eauto|].
+  unfold expand6. apply oall_ok. intros x Hx. apply in_map_iff in Hx. destruct Hx as [sub [<- _]]. apply pat6_ok.
+Qed.
